@@ -1,6 +1,8 @@
 #!/bin/sh
 # runs the repository's pinned baseline (hooks off) and compares with BASELINE.json stable_pass
-cd /repo && /venv/bin/python -m pytest -q -p no:cacheprovider --timeout=900 --continue-on-collection-errors --junitxml=/tmp/vp_baseline.xml >/tmp/vp_baseline.log 2>&1
+# (the repository's tests leave tmp-wpull-*.pem files behind: give them a scratch TMPDIR that is removed afterwards)
+scratch=$(mktemp -d /tmp/vpbaseXXXXXX)
+cd /repo && TMPDIR=$scratch /venv/bin/python -m pytest -q -p no:cacheprovider --timeout=900 --continue-on-collection-errors --junitxml=/tmp/vp_baseline.xml >/tmp/vp_baseline.log 2>&1
 /venv/bin/python - <<'PY'
 import json, xml.etree.ElementTree as ET
 base = set(json.load(open('/root/.vp/BASELINE.json'))['stable_pass'])
@@ -13,5 +15,5 @@ print('baseline stable_pass', len(base), 'passing now', len(base & passed), 'mis
 raise SystemExit(1 if missing else 0)
 PY
 rc=$?
-rm -f /tmp/vp_baseline.xml /tmp/vp_baseline.log
+rm -rf /tmp/vp_baseline.xml /tmp/vp_baseline.log "$scratch"
 exit $rc
